@@ -114,7 +114,11 @@ class BuildMachine(Machine):
                 toks[w.randrange(len(toks))] = w.choice(["prmit", "hst", "300.0.0.1", "tcpp"])
             return " ".join(toks)
         if r < 0.45:
-            return f"ip access-list extended X{w.randint(1, 9)}"
+            # a header of another ACL (of any kind) in the body: reported, and parsing goes on
+            return w.choice([f"ip access-list extended X{w.randint(1, 9)}",
+                             f"ipv6 access-list V6-{w.randint(1, 9)}",
+                             f"mac access-list M{w.randint(1, 9)}",
+                             f"arp access-list A{w.randint(1, 9)}"])
         first = w.choice(FIRST_WORDS)
         rest = w.sample(["ip", "any", "host", "10.0.0.1", "eq", "80", "log", "text", "tcp",
                          "0.0.0.255", "permit"], w.randint(0, 4))
@@ -170,6 +174,12 @@ class BuildMachine(Machine):
             body.insert(w.randint(0, len(body)), ["valid", seq + "remark " + w.choice([
                 "see description in ticket 42", "ignore fragments below",
                 "statistics per-entry enabled here", "no description yet", "do not ignore this"])])
+            if w.random() < 0.4:
+                # remark texts have no length limit in the library (names have: 100 characters)
+                words = " ".join(w.choice(["change", "CHG0012345", "ticket", "allow", "legacy",
+                                           "remove-after", "2026-09-28", "owner:netops"])
+                                 for _ in range(w.randint(14, 22)))
+                body.insert(w.randint(0, len(body)), ["valid", seq + "remark " + words])
             if w.random() < cfg["p_invalid"]:
                 body.insert(w.randint(0, len(body)), ["invalid", w.choice([
                     "foo ignore bar", "x description y", "show statistics now",
